@@ -530,8 +530,13 @@ class RecSock:
     async def reset_connection(self):
         self.calls.append(("reset_connection", self._state(), self.loop.time()))
 
+    fail_next = None   # exception class the next send raises (what the real send may raise by its contract)
+
     async def send(self, message=None, retry_policy=None):
         self.sent.append((message, retry_policy, self.loop.time(), self.is_connected))
+        if self.fail_next is not None:
+            exc, self.fail_next = self.fail_next, None
+            raise exc()
 
 
 def real_airtouch(loop, g, GEN, connected=True):
@@ -587,10 +592,14 @@ def airtouch_poll_loop(h, GEN):
     gaps = [h.choice(f"gap{i}", [0.5, 100.0, 299.0, 301.0, 650.0]) for i in range(h.int("frames", 0, 4))]
     connected = h.bool("connected")
     silence = h.choice("silence", [299.0, 301.0, 650.0, 1000.0])
+    refused = h.choice("first_request_refused_with", [None, None, "QueueOverflowError", "NotOpenError"])
 
     async def main(loop, net):
         import importlib
         api, sock, at = real_airtouch(loop, g, GEN, connected)
+        if refused:
+            import pyairtouch.comms.socket as S_
+            sock.fail_next = getattr(S_, refused)
         T = api._GROUP_STATUS_TIMEOUT
         task = loop.create_task(at._group_status_request_loop())
         arrivals = []
